@@ -168,7 +168,8 @@ class Program:
         tab = json.load(open(p))
         known = set(tab.get("known_paths", []))
         have = set(f["path"] for f in self.fns.values())
-        missing = [a for a in tab.get("anchors", []) if a["path"] not in have]
+        # anchors that are cfg-gated (absent from some analysed configuration of the unchanged tree) are never "renamed"
+        missing = [a for a in tab.get("anchors", []) if a["path"] not in have and a.get("everywhere", True)]
         if not missing:
             return
         fresh = [f for f in self.fns.values() if f["crate"] in PRODUCTION_CRATES and f["path"] not in known and f.get("vis") != "pub" and f.get("has_body", True)]
